@@ -165,6 +165,8 @@ pub fn run(ctx: &mut Ctx) {
     ctx.floor("hs.types.fragmented", 256);
     ctx.floor("long-trailing", 300);
     ctx.floor("hello.versions", 65536);
+    ctx.floor("soup.headers", 12_000_000);
+    ctx.floor("soup.ok", 10_000);
 
     // ------------------------------------------------ all declared lengths (alert records)
     ctx.sweep("sweep-length", 64, |ctx, idx| {
@@ -238,6 +240,46 @@ pub fn run(ctx: &mut Ctx) {
         rec.resize(rec.len() + extra, 0x77);
         frame_case(ctx, &h, payload.len(), &rec, true, "long-trailing");
         ctx.count("long-trailing");
+    });
+
+
+    // ------------------------------------------------ header byte soup (field coincidences): millions of random 13-byte headers
+    let soup = ctx.tier.pick(128, 1024);
+    ctx.family("header-soup", soup, |ctx, case: &mut Case| {
+        let r = &mut case.rng;
+        let mut buf = vec![0u8; 13 + 65535 + 4];
+        r.fill(&mut buf[..2048]);
+        // alerts everywhere so that a complete CCS/alert record usually decodes
+        for b in buf[13..2048].iter_mut() {
+            *b = 1;
+        }
+        let per = 100_000u64;
+        for k in 0..per {
+            for b in buf[..13].iter_mut() {
+                *b = gen::interesting_byte(r);
+            }
+            if k % 3 != 0 {
+                buf[0] = *r.pick(&[0x14u8, 0x15, 0x16]);
+            }
+            let h = ADtlsRecordHdr { ty: buf[0], ver: u16::from_be_bytes([buf[1], buf[2]]), epoch: u16::from_be_bytes([buf[3], buf[4]]), seq: u64::from_be_bytes([0, 0, buf[5], buf[6], buf[7], buf[8], buf[9], buf[10]]) };
+            let l = u16::from_be_bytes([buf[11], buf[12]]) as usize;
+            let n = match k % 4 {
+                0 | 1 => 13 + l + (k as usize % 2),
+                2 => (13 + l).saturating_sub(1).max(13),
+                _ => 13,
+            };
+            let input = &buf[..n];
+            let o = rec_call(input);
+            if let Some(rule) = judge_frame(&h, l, input, &o) {
+                ctx.violation(format!("c10:frame:{}:header-soup", rule), json!({"rule": rule, "header": format!("{:?}", h), "declared_len": l, "available": n, "observed": o.out.show(), "input_hex": hex_short(&input[..input.len().min(40)])}));
+            }
+            if o.out.is_ok() {
+                ctx.count("soup.ok");
+            }
+        }
+        ctx.evals(per);
+        ctx.add("soup.headers", per);
+        ctx.shape(&("soup", case.idx % 32));
     });
 
     // ------------------------------------------------ generated records: value + every prefix
